@@ -187,6 +187,31 @@ pub fn stress_inputs(big: usize) -> Vec<(String, String)> {
     v
 }
 
+/// a multi-byte character inserted right after a character at which some lexer makes a decision
+/// (escape introducers, radix prefixes, delimiters, separators): spans and slices computed in bytes
+/// must still fall on character boundaries
+fn inject_multibyte(r: &mut StdRng, s: &str) -> String {
+    let cs: Vec<char> = s.chars().collect();
+    let sites: Vec<usize> = (0..cs.len()).filter(|&i| "\\x#\".:/$[{(~r-,*".contains(cs[i]) || cs[i].is_ascii_digit()).collect();
+    // prefer the sites inside escape sequences: after a backslash and up to three characters later
+    let esc: Vec<usize> = (0..cs.len()).filter(|&i| (i.saturating_sub(3)..=i).any(|j| cs[j] == '\\')).collect();
+    let pool = if !esc.is_empty() && r.random_range(0..2) == 0 { &esc } else { &sites };
+    if pool.is_empty() {
+        return s.to_string();
+    }
+    let at = pool[r.random_range(0..pool.len())] + 1;
+    let ins = ['\u{e9}', '\u{4e16}', '\u{1F600}', '\u{80}'][r.random_range(0..4)];
+    let mut out: String = cs[..at].iter().collect();
+    out.push(ins);
+    if r.random_range(0..3) == 0 {
+        // replace instead of insert
+        out.extend(cs[(at + 1).min(cs.len())..].iter());
+    } else {
+        out.extend(cs[at..].iter());
+    }
+    out
+}
+
 pub fn random_input(r: &mut StdRng, spec: &SchemeSpec) -> (String, String) {
     match r.random_range(0..10) {
         0 => {
@@ -222,7 +247,11 @@ pub fn random_input(r: &mut StdRng, spec: &SchemeSpec) -> (String, String) {
             };
             let ts = g.filter();
             let src = random_layout(g.r, &ts);
-            ("corrupted-filter".into(), corrupt(g.r, &src))
+            if g.r.random_range(0..3) == 0 {
+                ("multibyte-injection".into(), inject_multibyte(g.r, &src))
+            } else {
+                ("corrupted-filter".into(), corrupt(g.r, &src))
+            }
         }
     }
 }
